@@ -142,18 +142,42 @@ def e2e_case(case):
     viols, ops, impl, sigs = [], [], [], set()
     orig = simmod.find_sub_systems
 
+    last = {}
+
+    def still_partition(tagp):
+        # the islands formed by the previous call are the ones the increment solved (load flow, balance, shedding): they must
+        # still hold every bus exactly once when the increment is over
+        p_s, want = last.get("ps"), last.get("part")
+        if p_s is None or want is None:
+            return
+        got = sorted(sorted(b.name for b in ss.buses) for ss in p_s.sub_systems)
+        if got != want:
+            miss = sorted({b for isl in want for b in isl} - {b for isl in got for b in isl})
+            viols.append(("islands.changed-while-solved", f"{tagp}: the islands formed for the previous increment were {want}, after it was solved they hold {got}" + (f" (buses in no island: {miss})" if miss else "")))
+
     def wrapped(p_s, curr_time):
+        still_partition(f"t={curr_time}")
         # entry: all backups must have been opened again at the start of the increment
         for l in p_s.lines:
             if l.is_backup and l.connected:
                 viols.append(("islands.backup-not-reopened", f"backup {l.name} still closed when islands are formed at t={curr_time}"))
         o, i, sig = observe_call(p_s, lambda: orig(p_s=p_s, curr_time=curr_time), viols, f"t={curr_time}")
         ops.append(o); impl.append(i); sigs.add(sig)
+        last["ps"] = p_s; last["part"] = sorted(sorted(b.name for b in ss.buses) for ss in p_s.sub_systems)
+    orig_reset = simmod.reset_system
+
+    def wrapped_reset(*a, **kw):
+        still_partition("end of iteration")
+        last.clear()                      # reset_system forms the islands of the intact network itself
+        return orig_reset(*a, **kw)
     simmod.find_sub_systems = wrapped
+    simmod.reset_system = wrapped_reset
     try:
         acct.e2e_run(dict(case, save=False))
+        still_partition("end of run")
     finally:
         simmod.find_sub_systems = orig
+        simmod.reset_system = orig_reset
     return dict(ops=ops, impl=impl, viols=viols[:3], nontrivial=("e2e", tuple(sorted(sigs))) if ops else None, tag=f"e2e:calls={len(ops)}")
 
 
@@ -237,7 +261,37 @@ def gen(rng, n_state, n_e2e):
             case["faults"] = {str(k0): [["line", rng.choice(prim).name, "30"]]}
             case["iters"] = 2
         cases.append(case)
+    for q in range(max(4, n_e2e // 4)):
+        # targeted: a source (generation unit or battery) deep in a feeder and a fault upstream of it that is sectioned out: the part
+        # below runs as an island of its own whose reference bus is the source's bus, not the bus the island search started from
+        spec = gen_spec(rng)
+        f = rng.randrange(len(spec["feeders"]))
+        fd = spec["feeders"][f]
+        while len(fd["parent"]) < 4:
+            fd["parent"].append(len(fd["parent"]) - 1)
+            for key, v in (("sw", 3), ("cust", 1), ("load", "1/50"), ("cost", 1)):
+                fd[key].append(v)
+        nl = len(fd["parent"])
+        deep = max(range(nl), key=lambda i: (depth(fd["parent"], i), i))
+        fd["prod" if q % 2 == 0 else "battery"] = {str(deep): ({"p": "1/20", "q": "1/100"} if q % 2 == 0 else {"p": "1", "q": "1", "e": "2", "smin": "1/10", "smax": "1", "eta": "1"})}
+        path = []
+        i = deep
+        while i != -1:
+            path.append(i); i = fd["parent"][i]
+        up = rng.choice(path[2:]) if len(path) > 2 else path[-1]       # a line at least two above the source
+        for i in path:
+            fd["sw"][i] = 3
+        n_inc = 8
+        cases.append({"kind": "e2e", "spec": spec, "n_inc": n_inc, "dt": str(rng.choice([F(1), F(1, 2)])),
+                      "faults": {str(rng.randint(1, 2)): [["line", f"F{f}L{up}", "3"]]}})
     return cases
+
+
+def depth(parent, i):
+    d = 0
+    while parent[i] != -1:
+        i = parent[i]; d += 1
+    return d
 
 
 def run(res):
@@ -245,7 +299,7 @@ def run(res):
     ns, ne = (150, 20) if res.tier == "quick" else (3000, 300)
     res.rule = ("1-3 feeders (laterals, 0-2 disconnectors per line), 1-3 backup ties (also two between the same pair of feeders), optional microgrid; "
                 "state cases: random lines/switches opened, failed backups, running sectioning timers, then find_sub_systems; "
-                "e2e: every find_sub_systems call of real runs with 1-4 injected overlapping line faults (ties included); two of three systems with ties instead get a long primary fault followed by a fault on the tie in the increments right after it has been closed, every third is run for two iterations (Simulation.run_iteration) the first of which ends mid-outage with a backup closed. "
+                "e2e: every find_sub_systems call of real runs with 1-4 injected overlapping line faults (ties included); two of three systems with ties instead get a long primary fault followed by a fault on the tie in the increments right after it has been closed, every third is run for two iterations (Simulation.run_iteration) the first of which ends mid-outage with a backup closed; a quarter more have a generation unit / battery deep in a feeder and a fault upstream of it (island with its own reference bus); the islands formed are compared again when the increment has been solved. "
                 "non-trivial = distinct (number of islands, backups closed, backups available)")
     run_cases(res, gen(rng, ns, ne), handler)
 
